@@ -19,7 +19,11 @@ RULE = ('E1: all 120 insertion orders of a 5-key table (keys chosen to '
         'every C03 value encoded twice with a deep identity-and-content '
         'snapshot before/after. A case is (position, insertion order) or '
         '(frame, repeat); non-trivial = not the already-sorted order / not '
-        'the default frame.')
+        'the default frame.'
+        ' '
+        'Also: permutations of 5 keys whose code-point order differs '
+        'from their UTF-16 code-unit order; encodings compared across '
+        'four PYTHONHASHSEED values.')
 BOUNDS = {'quick': {'keys': 5, 'nested_keys': 3, 'frames': 'C01/C02 quick '
                     'corpus (<=2 deviations), C03 quick values'},
           'thorough': {'keys': 6, 'nested_keys': 3, 'frames': 'C01 full '
